@@ -6,9 +6,9 @@ from vlib.core import qlit, qvec
 
 OBLIGATIONS = dict(
     prop_file='Properties/C18.v',
-    glue=['Glue/CoreGlue.v', 'Glue/Pin_p_clamps.v'] + ['Glue/Pin_fp_C18.v'],
+    glue=['Glue/CoreGlue.v', 'Glue/Pin_p_clamps.v'] + ['Glue/Pin_fp_C18.v', 'Glue/IgnoreCEGlue.v'],
     extra=['Model/CoreCheck.vo'],
-    gen_items=['k_safe_div', 'k_cdist', 'k_laplace', 'k_ema_inplace', 'p_clamps', 'fp_C18'],
+    gen_items=['k_safe_div', 'k_cdist', 'k_laplace', 'k_ema_inplace', 'p_clamps', 'p_losses', 'fp_C18'],
 )
 ASSUMPTIONS = [
     'PARTIAL: the theorems are over the reals (divisors bounded away from 0, sqrt / log / atanh arguments in range, EMA state in the convex hull of what it has seen); "finite in float32" additionally assumes that a float32 operation on finite operands '
